@@ -62,6 +62,22 @@ class C15(InterpProp):
                 j = rnd.randrange(n)
                 ops.append(['bind', i, j])
                 listeners.append([len(listeners), i, 'bind', j, True])
+        detacher = rnd.random() < 0.1
+        if detacher:
+            # a bound callable that detaches the listener bound right after it, from inside its first
+            # notification (the model has no such listener: implementation only)
+            i = rnd.randrange(n)
+            ops.append(['binddet', i, ncb, len(listeners) + 1])
+            listeners.append([len(listeners), i, 'cb', ncb, True])
+            ncb += 1
+            if rnd.random() < 0.6:
+                ops.append(['bindcb', i, ncb])
+                listeners.append([len(listeners), i, 'cb', ncb, False])
+                ncb += 1
+            else:
+                j = rnd.randrange(n)
+                ops.append(['bind', i, j])
+                listeners.append([len(listeners), i, 'bind', j, False])
         for _ in range(rnd.randint(1, 4)):
             add_binding()
         for _ in range(self.n_ops):
@@ -83,14 +99,14 @@ class C15(InterpProp):
                     t += rnd.choice([1, 2])
                 ops.append(['exec', i, t])
         payload = {'kind': 'interp', 'charts': [e.json for e in encs], 'ops': ops}
-        return Case(payload, {'charts': charts}, model_ok=all(e.supported for e in encs))
+        return Case(payload, {'charts': charts}, model_ok=all(e.supported for e in encs) and not detacher)
 
     def shrink_candidates(self, case):
         p = case.payload
         ops = p['ops']
         n = len(p['charts'])
         for i in range(len(ops) - 1, n - 1, -1):
-            if ops[i][0] in ('bind', 'bindcb', 'detach'):
+            if ops[i][0] in ('bind', 'bindcb', 'detach', 'binddet'):
                 continue
             q = copy.deepcopy(p)
             del q['ops'][i]
@@ -102,11 +118,14 @@ class C15(InterpProp):
         nl = 0
         recv = {}         # callback k -> expected list
         broken = set()    # interpreters that raised (their queues are no longer predictable)
+        detaches = {}     # listener id of a detaching callable -> listener it detaches on its first event
         for k, (op, ob) in enumerate(zip(ops, obs['obs'])):
-            if op[0] in ('bind', 'bindcb'):
-                bound[nl] = [op[1], 'cb' if op[0] == 'bindcb' else 'bind', op[2], True]
-                if op[0] == 'bindcb':
+            if op[0] in ('bind', 'bindcb', 'binddet'):
+                bound[nl] = [op[1], 'bind' if op[0] == 'bind' else 'cb', op[2], True]
+                if op[0] != 'bind':
                     recv.setdefault(op[2], [])
+                if op[0] == 'binddet':
+                    detaches[nl] = op[3]
                 nl += 1
             elif op[0] == 'detach':
                 bound[op[2]][3] = False
@@ -128,16 +147,23 @@ class C15(InterpProp):
                     announced = [m['data'][0][1] for m in oracles.meta_effects(r['eff']) if m['ev'] == 'event sent']
                     if announced != sent:
                         res.violations.append('op %d: internal events of the MacroStep %s differ from those announced %s' % (k, sent, announced))
-                for lid in sorted(bound):
-                    o, kind, tgt, live = bound[lid]
-                    if o == i and live and kind == 'cb':
-                        recv[tgt] += sent
-                        if len(recv[tgt]) >= 2:
+                for e in sent:
+                    # each event goes to the listeners in binding order; a listener detached meanwhile gets nothing
+                    for lid in sorted(bound):
+                        o, kind, tgt, live = bound[lid]
+                        if o == i and live and kind == 'cb':
+                            recv[tgt].append(e)
+                            if len(recv[tgt]) >= 2:
+                                res.nontrivial = True
+                                res.features.add('callable-received>=2')
+                            if lid in detaches:
+                                if detaches[lid] in bound:
+                                    bound[detaches[lid]][3] = False
+                                    res.features.add('detached-during-notification')
+                                del detaches[lid]
+                        if o == i and live and kind == 'bind':
+                            res.features.add('forwarded-to-interpreter' + ('-self' if tgt == i else ''))
                             res.nontrivial = True
-                            res.features.add('callable-received>=2')
-                    if o == i and live and kind == 'bind' and sent:
-                        res.features.add('forwarded-to-interpreter' + ('-self' if tgt == i else ''))
-                        res.nontrivial = True
                 for cbk, exp in recv.items():
                     got = ob['world']['callbacks'][cbk]
                     if got != exp:
